@@ -23,3 +23,9 @@ Fixpoint sorted_desc (l : list Z) : bool :=
   end.
 Definition order_sorted (ws : list Z) (T : Z) (order : list nat) : bool :=
   sorted_desc (map (fun i => nth i (remainders ws T) 0) order).
+
+(* get_measurements_representing_distribution: per-outcome shot counts of the result, given the sampler's recorded
+   results; the recorded draws must satisfy what the theorems assume of the sampler *)
+Require Import OQ.Stats.Represent OQ.Stats.RepresentProofs.
+Definition represent_eqb (ws : list Z) (N : Z) (draws : list (list (nat * Z))) (out : list Z) : bool :=
+  oeqb lzeqb (represent ws N draws) (Some out) && run_okb ws N draws.
